@@ -68,17 +68,17 @@ def check_smart_rotation(fx, R):
     cv = [f for f in fx.functions.values() if f.get('ctor') and f.get('cls') == NS + 'SmartRotation3D' and len(f['params']) == 1 and not f.get('copyctor')]
     iv = [f for f in fx.fn(rot.Q + 'init') if len(f['params']) == 1]
     ok = len(c3) == 1 and stmts_sx(c3[0]) == [('expr', ('.init', 'this', 'angleAroundXAxis', 'angleAroundYAxis', 'angleAroundZAxis'))] and any(i.get('delegating') for i in c3[0]['inits'])
-    R.check(ok, 'R2', 'SmartRotation3D(x,y,z)', 'constructor does not delegate to the table constructor and call init(x,y,z)', 'delegates + init(x,y,z)', fx.rel(c3[0]['loc']) if c3 else None, 'E-SIB')
+    R.form(ok, 'R2', 'SmartRotation3D(x,y,z)', 'constructor does not delegate to the table constructor and call init(x,y,z)', 'delegates + init(x,y,z)', fx.rel(c3[0]['loc']) if c3 else None, 'E-SIB')
     if len(cv) == 1:
         dl = [deep_unwrap(sx(i['e'])) for i in cv[0]['inits'] if i.get('delegating')]
         okv = len(dl) == 1 and dl[0][1:] == (('[]', 'angles', 0), ('[]', 'angles', 1), ('[]', 'angles', 2))
-        R.check(okv, 'R2', 'SmartRotation3D(angles)', 'vector constructor passes %s' % (dl,), '(angles[0], angles[1], angles[2]) = (x, y, z)', fx.rel(cv[0]['loc']), 'E-SIB')
+        R.form(okv, 'R2', 'SmartRotation3D(angles)', 'vector constructor passes %s' % (dl,), '(angles[0], angles[1], angles[2]) = (x, y, z)', fx.rel(cv[0]['loc']), 'E-SIB')
     if len(iv) == 1:
         okv = stmts_sx(iv[0]) == [('expr', ('.init', 'this', ('[]', 'angles', 0), ('[]', 'angles', 1), ('[]', 'angles', 2)))]
-        R.check(okv, 'R2', 'SmartRotation3D::init(angles)', 'init(Vector) is %s' % (stmts_sx(iv[0]),), 'init(angles[0], angles[1], angles[2])', fx.rel(iv[0]['loc']), 'E-SIB')
+        R.form(okv, 'R2', 'SmartRotation3D::init(angles)', 'init(Vector) is %s' % (stmts_sx(iv[0]),), 'init(angles[0], angles[1], angles[2])', fx.rel(iv[0]['loc']), 'E-SIB')
     fr = fx.one(rot.Q + 'R')
     if fr is not None:
-        R.check(stmts_sx(fr) == [('return', 'this.R_')], 'R1', 'SmartRotation3D::R', 'R() returns %s' % (stmts_sx(fr),), 'returns R_', fx.rel(fr['loc']), 'E-SIB')
+        R.form(stmts_sx(fr) == [('return', 'this.R_')], 'R1', 'SmartRotation3D::R', 'R() returns %s' % (stmts_sx(fr),), 'returns R_', fx.rel(fr['loc']), 'E-SIB')
 
 
 def fn1(fx, name, S, sig_part=None):
@@ -111,7 +111,7 @@ def check_builders(fx, R, S):
         else:
             R.undecided('R2', 'eulerAnglesToQuaternion<%s>' % S, 'builder idiom not recognised: %s' % (st,))
     okr = stmts_sx(fr) in ([('return', ('eulerAnglesToQuaternion', 'eulerAngles'))], [('return', ('new:Eigen::Matrix<%s, 3, 3, 0>' % S, ('eulerAnglesToQuaternion', 'eulerAngles')))])
-    R.check(okr, 'R2', 'eulerAnglesToRotation3D<%s>' % S, 'is %s, expected the matrix of eulerAnglesToQuaternion(angles)' % (stmts_sx(fr),), 'matrix of the quaternion', fx.rel(fr['loc']), 'E-SIB')
+    R.form(okr, 'R2', 'eulerAnglesToRotation3D<%s>' % S, 'is %s, expected the matrix of eulerAnglesToQuaternion(angles)' % (stmts_sx(fr),), 'matrix of the quaternion', fx.rel(fr['loc']), 'E-SIB')
     okq = stmts_sx(fqe) == [('return', ('rotation3DToEulerAngles', ('.toRotationMatrix', ('.normalized', 'quaternion'))))]
     if okq:
         R.holds('R2', 'quaternionToEulerAngles<%s>' % S, 'extraction of the normalised quaternion\'s matrix', fx.rel(fqe['loc']), 'E-SIB')
